@@ -45,6 +45,7 @@ UNKNOWN_BODIES = (
     (["Resolution = 1", "0 = B 1", "0 = N 0 0", '0 = E "section q"'], "  "),
     (["[Song]", "{", "0 = TS 9", "garbage"], ""),
     ([], "  "),
+    (["a = b", "} ", "[EasyKeyboard]", "{ ", "0 = N 3 0", "}\t", " }", "c = d"], ""),
 )
 VIAS = ("file", "path", "path-bom")
 
